@@ -63,6 +63,11 @@ def main(argv=None):
     import outrank.core_ranking  # noqa
     import outrank.task_ranking  # noqa
     import outrank.task_summary  # noqa
+    import outrank.task_generators  # noqa
+    import outrank.algorithms.synthetic_data_generators.cc_generator  # noqa
+    import outrank.algorithms.sketches.counting_cms  # noqa
+    from mc import seqdiff
+    seqdiff.remember_pristine()
     try:
         mod = importlib.import_module(f'mc.checks.{pid.lower()}')
     except ModuleNotFoundError as e:
